@@ -42,6 +42,20 @@ def enumerated(tier, seed):
             yield dict(mode="foreign", files=[f], perm=n, full_last=bool(n % 2), scatter_slots=bool(n % 3))
 
 
+    # file lists whose total is exactly the disk's 68 granules, and disks with more than 64 files
+    def f(name, kind, n, k):
+        ftype, dtype = {"ml": (2, 0), "basic": (0, 0), "ascii": (0, 0xFF)}[kind]
+        return dict(name=name, ext="BIN", kind=kind, ftype=ftype, dtype=dtype, load=0x1000, exec=0x1001, data=dict(n=n, k=k, mode=0, head="", tail=""))
+    full = [f("ML29", "ml", 65535, 1), f("BAS29", "basic", 65535, 2), f("ASC10", "ascii", 20836, 3)]
+    many = [f("S%d" % i, ("ml", "basic", "ascii")[i % 3], 10 + i, i) for i in range(68)]
+    for order in (None, list(range(67, -1, -1))):
+        yield dict(mode="roundtrip", files=full, order=order)
+        yield dict(mode="roundtrip", files=many, order=order)
+        yield dict(mode="roundtrip", files=many[:65], order=order)
+    yield dict(mode="foreign", files=many, perm=5, full_last=False, scatter_slots=False)
+    yield dict(mode="foreign", files=many[:40], perm=6, full_last=True, scatter_slots=True)
+
+
 def searches(tier):
     n = 1200 if tier == "quick" else 60000
     return [("roundtrip", _roundtrip, n), ("foreign", _foreign, n)]
